@@ -357,7 +357,11 @@ pub fn code_terminal(input: ParseString) -> ParseResult<Option<Comment>> {
 pub fn mech_code(input: ParseString) -> ParseResult<Vec<(MechCode,Option<Comment>)>> {
   let mut output = vec![];
   let mut new_input = input.clone();
+  #[cfg(mech_verif)]
+  let verif_id = crate::verif_hooks::enter("mech_code");
   loop {
+    #[cfg(mech_verif)]
+    crate::verif_hooks::progress(verif_id, "mech_code", new_input.cursor, new_input.graphemes.len());
 
     if peek(not_mech_code)(new_input.clone()).is_ok() {
       if output.len() > 0 {
